@@ -50,6 +50,11 @@ def candidates(rng, tier):
             salted.append("%sa%sb%sc:a.org:80" % (sig, salt, salt))
             if k in ("room", "event"):
                 salted.append("%sab%scd" % (sig, salt))
+        # long identifiers (up to the 255-byte limit) whose URI form is several times longer
+        for unit in ("水", "é", " ", "/", "%", "a b/", "?#"):
+            for total in (120, 200, 240, 249):
+                body = (unit * total).encode()[:total - 7].decode("utf-8", "ignore")
+                salted.append("%s%s:a.org" % (sig, body))
         rnd = ["%s%s:a.org" % (sig, jsongen.rand_string(rng, 6).replace(":", "").replace("\x00", ""))
                for _ in range(300 if tier == "quick" else 4000)]
         out[k] = base + salted + rnd
